@@ -111,6 +111,13 @@ def run_stage(work, drive, st, seed, out, model_invs, model_props):
         out.file_cmd[trace] = {"variant": st.kw.get("variant", "plain"), "args": args[:args.index("-out")] + args[args.index("-out") + 2:args.index("-stats")] + args[args.index("-stats") + 2:],
                                "label": st.label()}
         return ("trace", st, trace, stats, None)
+    if st.typ == "suite":
+        # the repository's own tests, run unedited under the call recorder (verif_record.go); every recorded call is one trace line
+        args = ["suite", "-repo", REPO, "-out", trace, "-stats", stats, "-seed", str(useed), "-max", str(st.kw.get("max", 1500)),
+                "-proj", str(st.kw.get("proj", 3))]
+        run_drive(drive, args)
+        out.file_cmd[trace] = {"variant": "plain", "args": args[:args.index("-out")] + args[args.index("-stats") + 2:], "label": st.label()}
+        return ("trace", st, trace, stats, None)
     raise Infra("unknown stage type " + st.typ)
 
 
